@@ -92,6 +92,23 @@ def known_split(prop, fails):
             viol.append(f)
     return viol, hits
 
+def run_reshape():
+    """spec/Reshape.tla: the row move of Entry::add / Entry::remove with the drop of the removed component
+    placed nowhere (pinned tree), in the middle of the move (first repair) or last (a8b823c)."""
+    key = content_key()
+    r = cache_get("reshape", key)
+    if not r:
+        r = {}
+        for d in ("last", "mid", "none"):
+            x = tlc_mc("Reshape.tla", "Reshape_%s.cfg" % d, os.path.join(WORK, "mc", "reshape-%s.meta" % d), workers=2, timeout=600)
+            r[d] = {"ok": x["ok"], "violated": x["violated"], "distinct": x["distinct"], "generated": x["generated"]}
+        cache_put("reshape", key, r)
+    if r["mid"]["ok"] or r["mid"]["violated"] != "Consistent":
+        raise ToolError("self-test failed: dropping the removed component in the middle of the row move does not violate Consistent")
+    if r["none"]["ok"] or r["none"]["violated"] != "ExactlyOnce":
+        raise ToolError("self-test failed: never dropping the removed component does not violate ExactlyOnce")
+    return r
+
 def run_world_prop(prop, tier, seed, replay):
     t0 = time.time()
     if replay:
@@ -127,6 +144,11 @@ def run_world_prop(prop, tier, seed, replay):
             if bug["ok"] or bug["violated"] != "NoLeak":
                 raise ToolError("self-test failed: the unguarded batch adoption does not violate NoLeak")
             mc = [m for m in mc if m["cfg"] != "HeapBug.cfg"]
+        if prop == "C04":
+            r = run_reshape()
+            mc = [{"cfg": "Reshape_last.cfg", "desc": "row move of Entry::add / Entry::remove through the packed buffer, every instance over 3 components, <=3 + <=2 rows, every moved row: the removed value is dropped exactly once and nothing else is (self-tests: the pinned design violates ExactlyOnce, the drop-in-the-middle design violates Consistent)",
+                   "ok": r["last"]["ok"], "generated": r["last"]["generated"], "distinct": r["last"]["distinct"],
+                   "violated": r["last"]["violated"], "log": "-", "wall": 0}]
         if prop == "C09":
             key = content_key()
             mc = cache_get("mcpar", key) or []
@@ -168,7 +190,7 @@ def run_world_prop(prop, tier, seed, replay):
     violations = [{"what": "%s (line %d of %s, op %s)" % (f["name"], f["line"], f["trace"], f["op"]),
                    "replay": f["replay"]} for f in viol]
     for m in mc:
-        if not m["ok"] and (m["violated"] in (MC_INV.get(prop), None) or prop in ("C09", "C05") or m["cfg"].startswith(("MCSerde", "MCRegN"))):
+        if not m["ok"] and (m["violated"] in (MC_INV.get(prop), None) or prop in ("C09", "C05", "C04") or m["cfg"].startswith(("MCSerde", "MCRegN"))):
             violations.append({"what": "model: %s violated in %s (%s)" % (m["violated"], m["cfg"], m["desc"]),
                                "replay": m["log"]})
     level, text = WORLD_NOTES[prop]
@@ -195,7 +217,7 @@ def run_world_prop(prop, tier, seed, replay):
         cov["transitions"] = sum(m["generated"] for m in mc)
         cov["model_instances"] = [{k: m[k] for k in ("cfg", "desc", "distinct", "generated", "ok")} for m in mc]
         cov["model_invariant"] = {"C09": "EveryRowOnce / NeverTwice / SlicesAgree", "C11": "Inv_C11 / Inv_C11_Pairs / Inv_RoundTrip (MCSerde)",
-                                  "C06": "Inv_C06 (MCWorld) + Inv_RoundTrip (MCSerde)", "C05": "Recorded / NoLeak / LenFits (Heap.tla)"}.get(prop, MC_INV.get(prop))
+                                  "C06": "Inv_C06 (MCWorld) + Inv_RoundTrip (MCSerde)", "C05": "Recorded / NoLeak / LenFits (Heap.tla)", "C04": "ExactlyOnce / Consistent / Moved (Reshape.tla)"}.get(prop, MC_INV.get(prop))
     assumptions = [
         "the harness executes and logs faithfully (worlddrv); the brood_verif dump hook is read-only",
         "bounded: histories of the stated length, <=3 live worlds, <=~12 live entities per world",
@@ -304,6 +326,7 @@ def run_fault_prop(prop, tier, seed, replay):
         cache_put("mcpanic", key, mcp)
     if not mcp["guarded_ok"]:
         raise ToolError("MCPanic: the guarded design does not satisfy PanicSafe (model error)")
+    rs = run_reshape()
     kn = [k for k in load_known().get("known", []) if k["property"] == prop]
     violations, hits = [], []
     for f in res["fails"]:
@@ -327,7 +350,13 @@ def run_fault_prop(prop, tier, seed, replay):
                          "pinned_design_violates_PanicSafe": mcp["pinned_violates"],
                          "guarded_design_satisfies_PanicSafe": mcp["guarded_ok"],
                          "guarded_states": mcp["guarded_states"]},
+        "design_model_reshape": {"spec": "spec/Reshape.tla (Entry::add / Entry::remove row move with a panic possible in the Drop of the removed component)",
+                                 "drop_last_satisfies_Consistent": rs["last"]["ok"], "states": rs["last"]["distinct"],
+                                 "drop_in_the_middle_violates_Consistent": not rs["mid"]["ok"],
+                                 "never_dropped_violates_ExactlyOnce": not rs["none"]["ok"]},
     }
+    if not rs["last"]["ok"]:
+        violations.append({"what": "model: %s violated in Reshape_last.cfg (the row move of Entry::remove as coded)" % rs["last"]["violated"], "replay": "-"})
     finish(prop, tier, seed, "fault_enumeration", cov, violations, t0,
            ["one panic per scenario; the quarantining allocator turns double frees and stale reads into data instead of crashes",
             "leaks after a panic are accepted (PanicSafe demands at-most-once)"], hits, write=not replay)
